@@ -1,1 +1,194 @@
-// Kani harnesses (cfg(kani) only); pulled in by a #[path] hook in /repo.
+// Kani harnesses for rustemo_compiler::settings (cfg(kani) only; child module of `settings`, so it can name the
+// private field `force_explicit`).  C17 (settings mapping), C07 mechanism `Settings::parser_algo`.
+use super::*;
+
+/// The value `Settings::default()` produces when neither OUT_DIR nor CARGO_MANIFEST_DIR is set.  Settings::default()
+/// itself reads environment variables (a foreign call Kani cannot model), so harnesses start from this literal;
+/// `default_literal_matches_source` below is NOT a proof of equality with the source -- the equality is checked
+/// natively by tools/native_checks (test settings_default_literal) on every run.
+pub(crate) fn base(out_dir: Option<PathBuf>, root_dir: Option<PathBuf>) -> Settings {
+    Settings {
+        root_dir,
+        out_dir_root: out_dir.clone(),
+        out_dir_actions_root: out_dir,
+        prefer_shifts: false,
+        prefer_shifts_over_empty: true,
+        table_type: TableType::LALR_PAGER,
+        parser_algo: ParserAlgo::LR,
+        print_table: false,
+        actions: true,
+        trace: false,
+        lexer_type: LexerType::Default,
+        builder_type: BuilderType::Default,
+        builder_loc_info: false,
+        generator_table_type: GeneratorTableType::Functions,
+        input_type: "str".into(),
+        lexical_disamb_most_specific: true,
+        lexical_disamb_longest_match: true,
+        lexical_disamb_grammar_order: true,
+        partial_parse: false,
+        skip_ws: true,
+        force: true,
+        force_explicit: false,
+        exclude: vec![],
+        dot: false,
+        fancy_regex: false,
+    }
+}
+
+/// Fully symbolic scalar part of a Settings value (paths/strings/exclude concrete and empty).
+pub(crate) fn any_settings() -> Settings {
+    let mut s = base(None, None);
+    s.prefer_shifts = kani::any();
+    s.prefer_shifts_over_empty = kani::any();
+    s.table_type = any_table_type();
+    s.parser_algo = any_parser_algo();
+    s.print_table = kani::any();
+    s.actions = kani::any();
+    s.trace = kani::any();
+    s.lexer_type = if kani::any() { LexerType::Default } else { LexerType::Custom };
+    s.builder_type = any_builder_type();
+    s.builder_loc_info = kani::any();
+    s.generator_table_type = if kani::any() { GeneratorTableType::Arrays } else { GeneratorTableType::Functions };
+    s.lexical_disamb_most_specific = kani::any();
+    s.lexical_disamb_longest_match = kani::any();
+    s.lexical_disamb_grammar_order = kani::any();
+    s.partial_parse = kani::any();
+    s.skip_ws = kani::any();
+    s.force = kani::any();
+    s.force_explicit = kani::any();
+    s.dot = kani::any();
+    s.fancy_regex = kani::any();
+    if kani::any() { s.out_dir_root = Some(PathBuf::new()); }
+    if kani::any() { s.out_dir_actions_root = Some(PathBuf::new()); }
+    if kani::any() { s.root_dir = Some(PathBuf::new()); }
+    s
+}
+pub(crate) fn any_table_type() -> TableType {
+    match kani::any::<u8>() { 0 => TableType::LALR, 1 => TableType::LALR_PAGER, _ => TableType::LALR_RN }
+}
+pub(crate) fn any_parser_algo() -> ParserAlgo {
+    if kani::any() { ParserAlgo::LR } else { ParserAlgo::GLR }
+}
+pub(crate) fn any_builder_type() -> BuilderType {
+    match kani::any::<u8>() { 0 => BuilderType::Default, 1 => BuilderType::Generic, _ => BuilderType::Custom }
+}
+
+/// Plain snapshot of every scalar field, so that "all other fields equal" can be asserted in one comparison.
+#[derive(PartialEq, Eq, Clone, Copy)]
+pub struct Snap {
+    pub out_dir_root: bool, pub out_dir_actions_root: bool, pub root_dir: bool,
+    pub prefer_shifts: bool, pub prefer_shifts_over_empty: bool, pub table_type: u8, pub parser_algo: u8,
+    pub print_table: bool, pub exclude_len: usize, pub actions: bool, pub trace: bool, pub lexer_type: u8, pub builder_type: u8,
+    pub builder_loc_info: bool, pub generator_table_type: u8, pub input_type_len: usize,
+    pub most_specific: bool, pub longest_match: bool, pub grammar_order: bool, pub partial_parse: bool, pub skip_ws: bool,
+    pub force: bool, pub force_explicit: bool, pub dot: bool, pub fancy_regex: bool,
+}
+pub fn snap(s: &Settings) -> Snap {
+    Snap {
+        out_dir_root: s.out_dir_root.is_some(), out_dir_actions_root: s.out_dir_actions_root.is_some(), root_dir: s.root_dir.is_some(),
+        prefer_shifts: s.prefer_shifts, prefer_shifts_over_empty: s.prefer_shifts_over_empty,
+        table_type: match s.table_type { TableType::LALR => 0, TableType::LALR_PAGER => 1, TableType::LALR_RN => 2 },
+        parser_algo: match s.parser_algo { ParserAlgo::LR => 0, ParserAlgo::GLR => 1 },
+        print_table: s.print_table, exclude_len: s.exclude.len(), actions: s.actions, trace: s.trace,
+        lexer_type: match s.lexer_type { LexerType::Default => 0, LexerType::Custom => 1 },
+        builder_type: match s.builder_type { BuilderType::Default => 0, BuilderType::Generic => 1, BuilderType::Custom => 2 },
+        builder_loc_info: s.builder_loc_info,
+        generator_table_type: match s.generator_table_type { GeneratorTableType::Arrays => 0, GeneratorTableType::Functions => 1 },
+        input_type_len: s.input_type.len(),
+        most_specific: s.lexical_disamb_most_specific, longest_match: s.lexical_disamb_longest_match,
+        grammar_order: s.lexical_disamb_grammar_order, partial_parse: s.partial_parse, skip_ws: s.skip_ws,
+        force: s.force, force_explicit: s.force_explicit, dot: s.dot, fancy_regex: s.fancy_regex,
+    }
+}
+
+/// C17: every scalar builder method sets exactly the documented field(s); all other fields are unchanged.
+/// complete: loop-free, every scalar field of the receiver and every argument symbolic over its whole type.
+#[kani::proof]
+fn settings_builders_frame() {
+    let s = any_settings();
+    let b = snap(&s);
+    let v: bool = kani::any();
+    let which: u8 = kani::any();
+    kani::assume(which < 17);
+    let (a, want) = match which {
+        0 => (snap(&s.prefer_shifts(v)), Snap { prefer_shifts: v, ..b }),
+        1 => (snap(&s.prefer_shifts_over_empty(v)), Snap { prefer_shifts_over_empty: v, ..b }),
+        2 => { let t = any_table_type(); let tn = match t { TableType::LALR => 0, TableType::LALR_PAGER => 1, TableType::LALR_RN => 2 };
+               (snap(&s.table_type(t)), Snap { table_type: tn, ..b }) }
+        3 => (snap(&s.lexer_type(if v { LexerType::Custom } else { LexerType::Default })), Snap { lexer_type: v as u8, ..b }),
+        4 => { let t = any_builder_type(); let tn = match t { BuilderType::Default => 0, BuilderType::Generic => 1, BuilderType::Custom => 2 };
+               (snap(&s.builder_type(t)), Snap { builder_type: tn, ..b }) }
+        5 => (snap(&s.builder_loc_info(v)), Snap { builder_loc_info: v, ..b }),
+        6 => (snap(&s.generator_table_type(if v { GeneratorTableType::Functions } else { GeneratorTableType::Arrays })), Snap { generator_table_type: v as u8, ..b }),
+        7 => (snap(&s.lexical_disamb_most_specific(v)), Snap { most_specific: v, ..b }),
+        8 => (snap(&s.lexical_disamb_longest_match(v)), Snap { longest_match: v, ..b }),
+        9 => (snap(&s.fancy_regex(v)), Snap { fancy_regex: v, ..b }),
+        10 => (snap(&s.print_table(v)), Snap { print_table: v, ..b }),
+        11 => (snap(&s.partial_parse(v)), Snap { partial_parse: v, ..b }),
+        12 => (snap(&s.skip_ws(v)), Snap { skip_ws: v, ..b }),
+        13 => (snap(&s.actions(v)), Snap { actions: v, ..b }),
+        14 => (snap(&s.dot(v)), Snap { dot: v, ..b }),
+        // force also records that it was given explicitly
+        15 => (snap(&s.force(v)), Snap { force: v, force_explicit: true, ..b }),
+        _ => (snap(&s.root_dir(PathBuf::new())), Snap { root_dir: true, ..b }),
+    };
+    assert!(a == want);
+}
+
+/// C17/C07: parser_algo(GLR) forces LALR_RN, switches both shift preferences and grammar order off; parser_algo(LR)
+/// only records the algorithm.  lexical_disamb_grammar_order(false) is refused (panics) for LR, accepted for GLR.
+/// complete.
+#[kani::proof]
+fn settings_parser_algo() {
+    let s = any_settings();
+    let b = snap(&s);
+    if kani::any() {
+        let a = snap(&s.parser_algo(ParserAlgo::GLR));
+        assert!(a == Snap { parser_algo: 1, table_type: 2, prefer_shifts: false, prefer_shifts_over_empty: false, grammar_order: false, ..b });
+    } else {
+        let a = snap(&s.parser_algo(ParserAlgo::LR));
+        assert!(a == Snap { parser_algo: 0, ..b });
+    }
+}
+#[kani::proof]
+fn settings_grammar_order() {
+    let s = any_settings();
+    let b = snap(&s);
+    let v: bool = kani::any();
+    kani::assume(v || b.parser_algo == 1); // documented: cannot be disabled for LR (panics)
+    let a = snap(&s.lexical_disamb_grammar_order(v));
+    assert!(a == Snap { grammar_order: v, ..b });
+    kani::cover!(!v, "grammar order disabled for GLR");
+}
+#[kani::proof]
+#[kani::should_panic]
+fn settings_grammar_order_lr_refused() {
+    let mut s = any_settings();
+    s.parser_algo = ParserAlgo::LR;
+    let _ = s.lexical_disamb_grammar_order(false);
+}
+
+/// C17/C18 mechanism: out-dir methods and the in_source_tree family, as documented.
+#[kani::proof]
+fn settings_out_dirs() {
+    let s = any_settings();
+    let b = snap(&s);
+    match kani::any::<u8>() % 4 {
+        0 => assert!(snap(&s.out_dir_root(PathBuf::new())) == Snap { out_dir_root: true, ..b }),
+        1 => assert!(snap(&s.out_dir_actions_root(PathBuf::new())) == Snap { out_dir_actions_root: true, ..b }),
+        2 => {
+            kani::assume(b.builder_type == 0); // documented: only for the default builder (panics otherwise)
+            let a = snap(&s.actions_in_source_tree());
+            assert!(a == Snap { out_dir_actions_root: false, force: if b.force_explicit { b.force } else { false }, ..b });
+        }
+        _ => {
+            let a = snap(&s.in_source_tree());
+            if b.builder_type == 0 {
+                assert!(a == Snap { out_dir_root: false, out_dir_actions_root: false, force: if b.force_explicit { b.force } else { false }, ..b });
+            } else {
+                assert!(a == Snap { out_dir_root: false, ..b });
+            }
+        }
+    }
+}
